@@ -1037,3 +1037,17 @@ package diam
 //@   modifies
 //@   requires msgok(m) && dtree(m.AVP)
 //@ end
+//@
+//@ # ======================= the stream number on the way out (C16, C19) =====
+//@ # an answer's stream travels Message.WriteTo -> WriteStream of the connection (response) -> WriteStream of the
+//@ # transport (SCTPConn) -> the SndRcvInfo handed to the kernel; each hop must pass it on unchanged, with the same bytes
+//@ func (*response).WriteStream(w, b, stream) (n, err)
+//@   property C16 C19
+//@   requires w != nil && w.conn != nil && w.conn.rwc != nil && w.conn.server != nil && w.conn.buf != nil && w.conn.buf.Writer != nil && !locked(&w.mu)
+//@   atcall WriteStream: [C16 C19] stream_forwarded_unchanged: ARG2 == stream && sameslice(ARG1, b)
+//@ end
+//@ func (*SCTPConn).WriteStream(msc, b, stream) (n, err)
+//@   property C16 C19
+//@   requires msc != nil && msc.SCTPConn != nil
+//@   atcall SCTPWrite: [C16 C19] the_kernel_gets_the_stream_number: sameslice(ARG1, b) && ARG2 != nil && (stream != InvalidStreamID ==> ARG2.Stream == uint16(stream))
+//@ end
